@@ -1,5 +1,8 @@
-(* Proofs about the event-level model of host promotion (Promotion.v) AFTER THE REPAIR of S9 / half of
-   S8: both handlers of NewHost insert a NEW RenetClient together with the new client transport.
+(* Proofs about the event-level model of host promotion (Promotion.v) after the repairs of S9 / S8:
+   (1) both handlers of NewHost insert a NEW RenetClient together with the new client transport;
+   (2) commit b8e47f4: tracker flag closing_server_after_promotion ([closing]), set by the old host's
+       NewHost handler, tested next to the flag when a ClientDisconnected finds the client table empty;
+       the client's NewHost handler no longer sets host_promotion_in_progress.
 
    Part 0-1  the enumeration of internal events is complete; [stable] is decidable; soundness of the
              exhaustive checks [checkb] (lists) and [checkb_h] (hash table): closed set + decreasing
@@ -9,25 +12,24 @@
    Part 3    one step seen from one peer (any N, any event): sticky_resets_only_by_newhost,
              stranded_frozen, stranded_never_connects (a peer with a dead RenetClient, ClientState
              Connected and no server can never have it replaced).
-   Part 4    invariants for every N: promotion_preserves_roles_invariant (any events), hosting/flag
-             "change only at" lemmas, window_step / hosting_after_promotion, hosting_without_flag,
-             channel shapes, single_promotion_invariant [spi] (at most two hosts, the one Promote, only
-             NewHost(k) relayed, other clients untouched or MOVED to k with a RenetClient that stays
-             alive and a flag that stays set), at_most_two_hosts, promoted_host_keeps_hosting,
-             C07_never_with_more_clients (the full goal is never reached for n >= 2: the flag),
-             old_host_keeps_hosting (the rest of S8 for every n: once verify_client_connected has
-             consumed the old host's flag while it still has its server, it hosts for ever).
-   Part 5    two and three clients, every interleaving: C07_two_clients_every_run_repaired,
-             C07_three_clients_every_run_repaired (all stable ends: everybody a connected client of
-             the new host, which hosts exactly all other peers; the old host has closed its server
-             OR keeps it), C07_refuted_two_clients, C07_statement_two_clients_false,
-             C07_roles_refuted_two_clients.
-   Part 6    S9 repaired: C07_chain_of_promotions_repaired (three promotions), C07_chain
+   Part 4    invariants for every N: promotion_preserves_roles_invariant (any events), hosting / flag /
+             closing "change only at" lemmas, window_step / hosting_after_promotion,
+             hosting_without_flag, closing_closes, channel shapes, single_promotion_invariant [spi],
+             at_most_two_hosts, promoted_host_keeps_hosting, C07_other_clients (every other client is
+             untouched or MOVED to k with a fresh RenetClient that stays alive; flags never set; nobody
+             stranded), old_host_closing (the old host, while it has its server after the hand-over,
+             is closing: verify_client_connected cannot make it keep the server),
+             old_host_closing_persists (that is absorbing).
+   Part 5    C07 with two and three clients, every interleaving, with termination measure:
+             C07_two_clients_promotion, C07_two_clients (= C07_statement 2 1),
+             C07_three_clients_promotion, C07_three_clients (= C07_statement 3 1), C07_two_clients_other
+             (= C07_statement 2 2), C07_all_n_statement / C07_all_n_partial.
+   Part 6    chains: C07_chain_of_promotions_repaired (three promotions), C07_chain
              (= C07_chain_statement), C07_chain_forever (chains of any length).
 
-   Open: the decrease of [measure] is proved on the complete reachable sets for 2, 3 and 4 peers
-   (by computation), not for arbitrary n; for arbitrary n "every other client ends up connected to
-   the new host" is proved as a safety property (untouched or moved at every point), not as liveness. *)
+   Open: the decrease of [measure] and "every stable state is session_ok" are proved on the complete
+   reachable sets for 2, 3 and 4 peers (by computation), not for arbitrary n; for arbitrary n the
+   safety properties of Part 4 hold at every point of every run. *)
 From Coq Require Import NArith List Lia.
 From stdpp Require Import gmap list.
 From RecordUpdate Require Import RecordSet.
@@ -372,7 +374,7 @@ Qed.
 
 (* the stuck lemma (still true after the repair): once stranded, for ever stranded -- whatever
    happens afterwards, new promotions by the application included, in a session of any size.
-   After the repair nobody gets stranded in a single promotion any more: no_client_stranded (Part 4) *)
+   After the repair nobody gets stranded in a single promotion any more: C07_other_clients (Part 4) *)
 Lemma stranded_step s e s' p : step s e = Some s' -> strandedP s p -> strandedP s' p.
 Proof.
   intros Hs Hp. unfold strandedP, pget in *. destruct (ps s !! p) as [xp|] eqn:Hxp; [|contradiction].
@@ -416,7 +418,7 @@ Ltac old_wf Hwf :=
   | |- wf_peer ?t =>
       match goal with
       | H : ps _ !! _ = Some ?y |- _ =>
-          match t with context [y] => destruct (Hwf _ _ H) as (W1 & W2 & W3 & W4 & W5 & W6) end
+          match t with context [y] => destruct (Hwf _ _ H) as (W1 & W2 & W3 & W4 & W5 & W6 & W7) end
       end
   end.
 
@@ -556,28 +558,48 @@ Qed.
 Lemma hosting_falls_only_when s e s' p :
   step s e = Some s' -> pget hosting false s p = true -> pget hosting true s' p = false ->
   e = ENotify p /\
-  exists x c q, ps s !! p = Some x /\ srv_gate x = true /\ flag x = true /\ clients x = [] /\ srv_events x = (false, c) :: q.
+  exists x c q, ps s !! p = Some x /\ srv_gate x = true /\ (flag x = true \/ closing x = true) /\ clients x = [] /\
+                srv_events x = (false, c) :: q.
 Proof.
   intros Hs H1 H2. unfold pget in *.
   destruct e; step_inv Hs; pssimpl_in H2; ins_cases_in H2; use_lookups; simpl in *; try congruence;
     try (destruct (ps s !! p) eqn:?; congruence).
   bool_hyps. split; [reflexivity|]. eexists _, _, _. split; [eassumption|]. split_and?; try eassumption.
-  destruct (clients _); [reflexivity|discriminate].
+  - match goal with H : _ || _ = true |- _ => apply orb_true_iff in H as [H|H] end; [left|right]; assumption.
+  - destruct (clients _); [reflexivity|discriminate].
 Qed.
 
 Lemma flag_rises_only_by_message s e s' p :
   step s e = Some s' -> pget flag true s p = false -> pget flag false s' p = true ->
-  (exists h, e = EDeliverDown h p /\
-             (head (chan (down s) h p) = Some Promote \/ exists q, head (chan (down s) h p) = Some (NewHost q)))
+  (exists h, e = EDeliverDown h p /\ head (chan (down s) h p) = Some Promote)
   \/ (exists c q, e = EDeliverUp c p /\ head (chan (up s) c p) = Some (NewHost q)).
 Proof.
   intros Hs H1 H2. unfold pget in *.
   destruct e; step_inv Hs; pssimpl_in H2; ins_cases_in H2; use_lookups; simpl in *; try congruence;
     try (destruct (ps s !! p) eqn:?; congruence).
   all: match goal with H : chan _ _ _ = _ |- _ =>
-         first [ left; eexists; split; [reflexivity|]; left; rewrite H; reflexivity
-               | left; eexists; split; [reflexivity|]; right; rewrite H; eexists; reflexivity
+         first [ left; eexists; split; [reflexivity|]; rewrite H; reflexivity
                | right; eexists _, _; split; [reflexivity|]; rewrite H; reflexivity ] end.
+Qed.
+
+(* [closing] is set only by the server-side handler of NewHost, and cleared only when the server is closed *)
+Lemma closing_rises_only_by_newhost s e s' p :
+  step s e = Some s' -> pget closing true s p = false -> pget closing false s' p = true ->
+  exists c q, e = EDeliverUp c p /\ head (chan (up s) c p) = Some (NewHost q).
+Proof.
+  intros Hs H1 H2. unfold pget in *.
+  destruct e; step_inv Hs; pssimpl_in H2; ins_cases_in H2; use_lookups; simpl in *; try congruence;
+    try (destruct (ps s !! p) eqn:?; congruence).
+  all: match goal with H : chan _ _ _ = _ |- _ => eexists _, _; split; [reflexivity|]; rewrite H; reflexivity end.
+Qed.
+Lemma closing_falls_only_with_server s e s' p :
+  step s e = Some s' -> pget closing false s p = true -> pget closing true s' p = false ->
+  e = ENotify p /\ pget hosting true s' p = false.
+Proof.
+  intros Hs H1 H2. unfold pget in *.
+  destruct e; step_inv Hs; revert H2; pssimpl; ins_cases; intros H2; use_lookups; simpl in *; try congruence;
+    try (destruct (ps s !! p) eqn:?; congruence).
+  split; reflexivity.
 Qed.
 
 Lemma flag_falls_only_when s e s' p :
@@ -599,9 +621,12 @@ Proof.
   intros (Hwf & _ & _) Hs Hh Hp. unfold pget in Hp.
   step_inv Hs; simpl in Hh; try discriminate; try congruence.
   pssimpl. rewrite lookup_insert. eexists. split; [reflexivity|]. simpl.
-  split; [reflexivity|]. split; [reflexivity|]. intros _. simpl. left.
-  match goal with H : ps s !! p = Some ?y, H' : hosting ?y = false |- _ => destruct (Hwf _ _ H) as (W1 & _); destruct (W1 H') as (? & ? & _) end.
-  auto.
+  split; [reflexivity|]. split; [reflexivity|].
+  match goal with H : ps s !! p = Some ?y, H' : hosting ?y = false |- _ =>
+    destruct (Hwf _ _ H) as (W1 & _ & _ & _ & _ & _ & W7); destruct (W1 H') as (? & ? & _) end.
+  split; simpl.
+  - match goal with |- closing ?y = false => destruct (closing y); [|reflexivity] end. specialize (W7 eq_refl). congruence.
+  - intros _. left. auto.
 Qed.
 
 Lemma window_step s e s' p x :
@@ -610,27 +635,28 @@ Lemma window_step s e s' p x :
   (forall h, e = EDeliverDown h p -> head (chan (down s) h p) = Some ReqInit) ->
   exists x', ps s' !! p = Some x' /\ hosting x' = true /\ window x'.
 Proof.
-  intros Hx Hh Hw Hs Hno1 Hno2.
+  intros Hx Hh [Hcl Hw] Hs Hno1 Hno2.
   destruct e; step_inv Hs; pssimpl; ins_cases; same_lookup; rewrite ?Hx;
-    try (eexists; split; [reflexivity|]; split; [assumption|assumption]).
+    try (eexists; split; [reflexivity|]; split; [assumption|split; assumption]).
   all: try (exfalso; specialize (Hno2 _ eq_refl);
             match goal with H : chan _ _ _ = _ |- _ => rewrite H in Hno2 end; discriminate).
   all: try (exfalso; eapply Hno1; [reflexivity|];
             match goal with H : chan _ _ _ = _ |- _ => rewrite H end; reflexivity).
   all: eexists; split; [reflexivity|]; unfold window in *; simpl; bool_hyps.
-  all: try (split; [assumption|intros; discriminate]).
+  all: try (split; [assumption|split; [assumption|intros; discriminate]]).
   - (* ENotify, ClientConnected, flag not set *)
-    split; [assumption|]. intros Hf. congruence.
+    split; [assumption|]. split; [assumption|]. intros Hf. congruence.
   - (* ENotify, the server is closed: impossible inside the window *)
-    exfalso. destruct (Hw ltac:(assumption)) as [[Hq _]|(c' & q' & Hq)]; congruence.
+    exfalso. match goal with H : _ || _ = true |- _ => apply orb_true_iff in H as [H|H] end; [|congruence].
+    destruct (Hw ltac:(assumption)) as [[Hq _]|(c' & q' & Hq)]; congruence.
   - (* ENotify, ClientDisconnected ignored *)
-    split; [assumption|]. intros Hf. exfalso.
+    split; [assumption|]. split; [assumption|]. intros Hf. exfalso.
     destruct (Hw Hf) as [[Hq _]|(c' & q' & Hq)]; congruence.
   - (* EConnect to p *)
-    split; [assumption|]. intros Hf. right.
+    split; [assumption|]. split; [assumption|]. intros Hf. right.
     destruct (Hw Hf) as [[Hq _]|(c' & q' & Hq)]; rewrite Hq; simpl; eauto.
   - (* ETimeout at p *)
-    split; [assumption|]. intros Hf. right.
+    split; [assumption|]. split; [assumption|]. intros Hf. right.
     destruct (Hw Hf) as [[Hq Hc]|(c' & q' & Hq)].
     + exfalso. match goal with H : _ ∈ clients x |- _ => rewrite Hc in H; inversion H end.
     + rewrite Hq. simpl. eauto.
@@ -816,7 +842,7 @@ Lemma untouched_self s e s' c x :
      \/ (e = EDeliverDown host c /\ head (chan (down s) host c) = Some Promote)
      \/ (exists q, e = EDeliverDown host c /\ head (chan (down s) host c) = Some (NewHost q) /\
                    hosting x' = false /\ client_of x' = Some q /\ cli_state x' = CConnected /\ cli_removed x' = false /\
-                   sticky x' = false /\ flag x' = true /\ link_up x' = false)).
+                   sticky x' = false /\ link_up x' = false)).
 Proof.
   intros Hs Hx (U1 & U2 & U3 & U4 & U5 & x0 & U6 & U7 & U8) Hc.
   destruct e; step_inv Hs; pssimpl; ins_cases; same_lookup; rewrite ?Hx; bool_hyps;
@@ -872,14 +898,14 @@ Ltac same_target :=
 Lemma moved_self s e s' k c x :
   step s e = Some s' -> ps s !! c = Some x -> c <> k ->
   hosting x = false -> client_of x = Some k -> cli_state x = CConnected -> cli_removed x = false ->
-  sticky x = false -> flag x = true -> srv_added x = false ->
+  sticky x = false -> srv_added x = false ->
   (link_up x = true -> pget hosting false s k = true /\ c ∈ pget clients [] s k) ->
   chan (down s) k c = [] ->
   exists x', ps s' !! c = Some x' /\ hosting x' = false /\ client_of x' = Some k /\ cli_state x' = CConnected /\
-    cli_removed x' = false /\ sticky x' = false /\ flag x' = true /\
+    cli_removed x' = false /\ sticky x' = false /\
     (link_up x' = true -> link_up x = true \/ e = EConnect c).
 Proof.
-  intros Hs Hx Hck M1 M2 M3 M4 M5 M6 M7 M8 M9. unfold pget in M8.
+  intros Hs Hx Hck M1 M2 M3 M4 M5 M7 M8 M9. unfold pget in M8.
   destruct e; step_inv Hs; pssimpl; ins_cases; same_lookup; rewrite ?Hx; bool_hyps;
     unfold srv_gate, cli_gate in *; simpl; bool_hyps;
     try (eexists; split; [reflexivity|]; simpl; split_and?; (assumption || reflexivity || (intros; left; assumption) || eauto));
@@ -919,11 +945,19 @@ Proof.
   rewrite lookup_insert. simpl. apply elem_of_app. right. left.
 Qed.
 
+(* the server-side handler of NewHost sets [closing] *)
+Lemma newhost_up_sets_closing s c h s' q :
+  step s (EDeliverUp c h) = Some s' -> head (chan (up s) c h) = Some (NewHost q) -> pget closing false s' h = true.
+Proof.
+  intros Hs Hhead. unfold pget. step_inv Hs; simpl in Hhead; try discriminate.
+  all: pssimpl; rewrite lookup_insert; reflexivity.
+Qed.
+
 Lemma spi_hosting_step k s e s' :
   roles_inv s -> spi k s -> internal e = true -> step s e = Some s' ->
   pget hosting false s k = true -> pget hosting false s' k = true.
 Proof.
-  intros Hinv (Hk & H1 & H2 & H3 & H4 & H5 & H6 & H7 & H8) Hi Hs Hh.
+  intros Hinv (Hk & H1 & H2 & H3 & H4 & H5 & H6 & H7 & H8 & H9 & H10) Hi Hs Hh.
   unfold pget in Hh. destruct (ps s !! k) as [x|] eqn:Hx; [|discriminate].
   destruct (window_step s e s' k x Hx Hh (H8 x eq_refl Hh) Hs) as (x'' & Hx'' & Hh' & _).
   - intros c q -> Hhead. apply head_elem_of in Hhead.
@@ -938,7 +972,7 @@ Lemma spi_step k s e s' : roles_inv s -> spi k s -> internal e = true -> step s 
 Proof.
   intros Hinv Hspi Hi Hs.
   pose proof (spi_hosting_step k s e s' Hinv Hspi Hi Hs) as Hkh.
-  destruct Hspi as (Hk & H1 & H2 & H3 & H4 & H5 & H6 & H7 & H8).
+  destruct Hspi as (Hk & H1 & H2 & H3 & H4 & H5 & H6 & H7 & H8 & H9 & H10).
   pose proof (step_dom _ _ _ Hs) as Hdom.
   assert (Hup : forall c h q, head (chan (up s) c h) = Some (NewHost q) ->
                   q = k /\ c = k /\ h = host /\ pget hosting false s k = true).
@@ -1011,10 +1045,10 @@ Proof.
       * apply elem_of_list_singleton in Hm as ->. left. reflexivity.
   - (* the other clients *)
     intros c x' Hx' Hc0 Hck. destruct (Hold _ _ Hx') as [x Hx].
-    destruct (H7 c x Hx Hc0 Hck) as [Hu|(M1 & M2 & M3 & M4 & M5 & M6 & M7 & M8)].
+    destruct (H7 c x Hx Hc0 Hck) as [Hu|(M1 & M2 & M3 & M4 & M5 & M7 & M8)].
     + destruct (untouched_self s e s' c x Hs Hx Hu Hc0) as (x'' & Hx'' & Hcases).
       rewrite Hx' in Hx''. injection Hx'' as <-.
-      destruct Hcases as [(U1 & U2 & U3 & U4 & U5)|[(-> & Hhead)|(q & -> & Hhead & N1 & N2 & N3 & N4 & N5 & N6 & N7)]].
+      destruct Hcases as [(U1 & U2 & U3 & U4 & U5)|[(-> & Hhead)|(q & -> & Hhead & N1 & N2 & N3 & N4 & N5 & N7)]].
       * left. unfold untouched. split_and?; try assumption.
         destruct Hu as (_ & V2 & V3 & _ & _ & x0 & V6 & V7 & V8).
         eapply (untouched_host s e s' c x x0); eauto.
@@ -1023,7 +1057,7 @@ Proof.
       * right. apply head_elem_of in Hhead. destruct (H5 _ _ _ Hhead) as (_ & [(Hq & _ & _ & Hkhost)|(? & _)]); [|discriminate].
         injection Hq as ->. unfold moved. split_and?; try assumption; [apply Hkh; exact Hkhost|].
         intros Hl. congruence.
-    + right. destruct (moved_self s e s' k c x Hs Hx Hck M1 M2 M3 M4 M5 M6) as (x'' & Hx'' & N1 & N2 & N3 & N4 & N5 & N6 & N7).
+    + right. destruct (moved_self s e s' k c x Hs Hx Hck M1 M2 M3 M4 M5) as (x'' & Hx'' & N1 & N2 & N3 & N4 & N5 & N7).
       * destruct (srv_added x) eqn:Hsa; [|reflexivity]. exfalso. apply Hck. eapply H2; eauto.
       * intros Hl. split; [exact M7|exact (M8 Hl)].
       * destruct (chan (down s) k c) as [|m0 rest] eqn:Hch; [reflexivity|]. exfalso.
@@ -1052,6 +1086,47 @@ Proof.
       destruct (promote_opens_window s h k s' Hinv Hs Hhead) as (x'' & Hx'' & _ & _ & Hw).
       { rewrite (pget_Some _ _ _ _ _ Hx). exact Hhx. }
       rewrite Hx' in Hx''. injection Hx'' as <-. exact Hw.
+  - (* the flags of the other clients *)
+    intros c x' Hx' Hc0 Hck. destruct (Hold _ _ Hx') as [x Hx]. destruct (H9 c x Hx Hc0 Hck) as [Hf Hcl]. split.
+    + destruct (flag x') eqn:Hf'; [|reflexivity]. exfalso.
+      destruct (flag_rises_only_by_message s e s' c Hs) as [(h & -> & Hhead)|(a & q & -> & Hhead)].
+      { rewrite (pget_Some _ _ _ _ _ Hx). exact Hf. } { rewrite (pget_Some _ _ _ _ _ Hx'). exact Hf'. }
+      * apply head_elem_of in Hhead. destruct (H5 _ _ _ Hhead) as (_ & [(? & _)|(_ & ? & _)]); [discriminate|contradiction].
+      * destruct (Hup _ _ _ Hhead) as (_ & _ & ? & _). contradiction.
+    + destruct (closing x') eqn:Hcl'; [|reflexivity]. exfalso.
+      destruct (closing_rises_only_by_newhost s e s' c Hs) as (a & q & -> & Hhead).
+      { rewrite (pget_Some _ _ _ _ _ Hx). exact Hcl. } { rewrite (pget_Some _ _ _ _ _ Hx'). exact Hcl'. }
+      destruct (Hup _ _ _ Hhead) as (_ & _ & ? & _). contradiction.
+  - (* the old host *)
+    intros x' Hx' Hh'. destruct (Hold _ _ Hx') as [x Hx].
+    assert (Hhx : hosting x = true).
+    { destruct (hosting x) eqn:Hhx; [reflexivity|]. exfalso.
+      destruct (hosting_rises_only_by_promote s e s' host Hs) as (h & -> & Hhead).
+      { rewrite (pget_Some _ _ _ _ _ Hx). exact Hhx. } { rewrite (pget_Some _ _ _ _ _ Hx'). exact Hh'. }
+      apply head_elem_of in Hhead. destruct (H5 _ _ _ Hhead) as (_ & [(? & _)|(_ & ? & _)]); [discriminate|].
+      apply Hk. symmetry. assumption. }
+    destruct (closing x') eqn:Hcl'; [left; reflexivity|right]. split; [reflexivity|].
+    destruct (H10 x Hx Hhx) as [Hcl|(Hcl & Hco & Hf)].
+    { exfalso. destruct (closing_falls_only_with_server s e s' host Hs) as (_ & Hnh).
+      { rewrite (pget_Some _ _ _ _ _ Hx). exact Hcl. } { rewrite (pget_Some _ _ _ _ _ Hx'). exact Hcl'. }
+      rewrite (pget_Some _ _ _ _ _ Hx') in Hnh. congruence. }
+    assert (Hnew : forall a q, e = EDeliverUp a host -> head (chan (up s) a host) = Some (NewHost q) -> False).
+    { intros a q -> Hhead. pose proof (newhost_up_sets_closing s a host s' q Hs Hhead) as Hc.
+      rewrite (pget_Some _ _ _ _ _ Hx') in Hc. congruence. }
+    split.
+    + destruct (decide (client_of x' = None)) as [Hn|Hn]; [exact Hn|]. exfalso.
+      destruct (client_of_changes_only s e s' host Hs) as [(h0 & q & -> & Hhead & Hq)|[(a & q & -> & Hhead & Hq)|(-> & Hq)]].
+      { rewrite (pget_Some _ _ _ _ _ Hx), (pget_Some _ _ _ _ _ Hx'). congruence. }
+      * apply head_elem_of in Hhead. destruct (H5 _ _ _ Hhead) as (_ & [(_ & _ & ? & _)|(_ & ? & _)]); [contradiction|].
+        apply Hk. symmetry. assumption.
+      * eapply Hnew; eauto.
+      * rewrite (pget_Some _ _ _ _ _ Hx') in Hq. contradiction.
+    + destruct (flag x') eqn:Hf'; [|reflexivity]. exfalso.
+      destruct (flag_rises_only_by_message s e s' host Hs) as [(h & -> & Hhead)|(a & q & -> & Hhead)].
+      { rewrite (pget_Some _ _ _ _ _ Hx). exact Hf. } { rewrite (pget_Some _ _ _ _ _ Hx'). exact Hf'. }
+      * apply head_elem_of in Hhead. destruct (H5 _ _ _ Hhead) as (_ & [(? & _)|(_ & ? & _)]); [discriminate|].
+        apply Hk. symmetry. assumption.
+      * eapply Hnew; eauto.
 Qed.
 
 Lemma spi_run k tr : forall s s', roles_inv s -> spi k s -> all_internal tr -> run s tr = Some s' ->
@@ -1104,6 +1179,10 @@ Proof.
     exists (idle_host (client_ids n)). rewrite Hl, session_lookup, decide_True by reflexivity. auto.
   - intros x Hx Hh. rewrite Hl, session_lookup in Hx. rewrite (decide_False _ _ Hk0), (decide_True _ _ Hk) in Hx.
     simplify_eq; simpl in *; try discriminate.
+  - intros c x Hx Hc0 Hck. rewrite Hl, session_lookup in Hx. rewrite (decide_False _ _ Hc0) in Hx.
+    case_decide as Hc; simplify_eq. split; reflexivity.
+  - intros x Hx Hh. rewrite Hl, session_lookup in Hx. rewrite decide_True in Hx by reflexivity.
+    simplify_eq. right. split_and?; reflexivity.
 Qed.
 
 Lemma run_dom tr : forall s s', run s tr = Some s' -> forall p, is_Some (ps s' !! p) <-> is_Some (ps s !! p).
@@ -1156,48 +1235,101 @@ Proof.
 Qed.
 Print Assumptions promoted_host_keeps_hosting.
 
-(* what is left of S8 after the repair, for every n >= 2: the promotion NEVER reaches its goal
-   [session_ok] -- at no point of any run.  A second client c is an ordinary client of the old host
-   until it obeys NewHost; from then on it is a client of the new host k with a RenetClient that is
-   and stays alive (so the repair works: [moved]) -- but its flag host_promotion_in_progress is set
-   and nothing ever clears it (ClientState never leaves Connected, so verify_client_connected never
-   runs again on c) *)
-Theorem C07_never_with_more_clients n k c tr s :
+(* The other clients, for every n, at every point of every run after the request: a client c other
+   than the promoted one is an ordinary client of the old host until it obeys NewHost(k); from then on
+   it is a client of the new host k with a FRESH RenetClient that is and stays alive ([moved]: k hosts,
+   and once c is linked it is in k's client table, so neither a kick nor a time-out can hit it).  Its
+   tracker flags are never set, its RenetClient is never dead: nobody is stranded. *)
+Theorem C07_other_clients n k c tr s :
   k ∈ client_ids n -> c ∈ client_ids n -> c <> k -> all_internal tr -> run (promoted n k) tr = Some s ->
-  (exists x, ps s !! c = Some x /\ (untouched s c x \/ moved s k c x)) /\
-  ~ session_ok s k.
+  exists x, ps s !! c = Some x /\ (untouched s c x \/ moved s k c x) /\
+            flag x = false /\ closing x = false /\ sticky x = false /\ ~ stranded x.
 Proof.
   intros Hk Hc Hck Hall Hrun. destruct (single_promotion_invariant n k tr s Hk Hall Hrun) as (Hinv & Hspi).
-  destruct Hspi as (Hk0 & H1 & H2 & H3 & H4 & H5 & H6 & H7 & H8).
+  destruct Hspi as (Hk0 & H1 & H2 & H3 & H4 & H5 & H6 & H7 & H8 & H9 & H10).
   assert (Hc0 : c <> host) by (apply elem_of_client_ids in Hc; unfold host; lia).
   assert (Hdom : is_Some (ps s !! c)).
   { apply (run_dom _ _ _ Hrun). destruct (promoted_eq n k Hk) as [_ ->]. rewrite ps_push_down, session_lookup.
     rewrite (decide_False _ _ Hc0), (decide_True _ _ Hc). eauto. }
-  destruct Hdom as [x Hx]. pose proof (H7 c x Hx Hc0 Hck) as Hcase.
-  split; [eauto|].
-  intros [_ Hok]. destruct (Hok c x Hx Hck) as (Hco & _ & _ & Hfl & _).
-  destruct Hcase as [(_ & U2 & _)|(_ & _ & _ & _ & _ & M6 & _)]; [|congruence].
-  rewrite U2 in Hco. injection Hco as Hco. apply Hk0. symmetry. exact Hco.
-Qed.
-Print Assumptions C07_never_with_more_clients.
-
-(* the repair, for every n: during a single promotion no client other than the promoted one ever has
-   a dead RenetClient -- nobody is stranded any more.  (A dead RenetClient can still persist on a
-   KICKED PROMOTED peer: harmless in a chain (Part 6: the next NewHost replaces it), not harmless if
-   the application promotes two peers at once: Promotion.ex_concurrent_promotions.) *)
-Corollary no_client_stranded n k c tr s :
-  k ∈ client_ids n -> c ∈ client_ids n -> c <> k -> all_internal tr -> run (promoted n k) tr = Some s ->
-  pget sticky true s c = false /\ ~ strandedP s c.
-Proof.
-  intros Hk Hc Hck Hall Hrun. destruct (C07_never_with_more_clients n k c tr s Hk Hc Hck Hall Hrun) as [(x & Hx & Hcase) _].
-  destruct (single_promotion_invariant n k tr s Hk Hall Hrun) as ((Hwf & _ & _) & _).
+  destruct Hdom as [x Hx]. pose proof (H7 c x Hx Hc0 Hck) as Hcase. destruct (H9 c x Hx Hc0 Hck) as [Hf Hcl].
   assert (Hs : sticky x = false).
   { destruct Hcase as [(_ & _ & U3 & _)|(_ & _ & _ & _ & M5 & _)]; [|exact M5].
-    destruct (Hwf _ _ Hx) as (_ & _ & W3 & _). destruct (sticky x); [|reflexivity]. specialize (W3 eq_refl). congruence. }
-  unfold strandedP. rewrite !(pget_Some _ _ _ _ _ Hx). split; [exact Hs|].
+    destruct Hinv as (Hwf & _ & _). destruct (Hwf _ _ Hx) as (_ & _ & W3 & _).
+    destruct (sticky x); [|reflexivity]. specialize (W3 eq_refl). congruence. }
+  exists x. split; [exact Hx|]. split; [exact Hcase|]. split; [exact Hf|]. split; [exact Hcl|]. split; [exact Hs|].
   intros (_ & S2 & _). congruence.
 Qed.
-Print Assumptions no_client_stranded.
+Print Assumptions C07_other_clients.
+
+(* The old host, for every n, at every point of every run after the request: as long as it has its
+   server it either has not yet handled NewHost(k) (no client transport, flag not set), or [closing]
+   is set.  In particular verify_client_connected -- which consumes [flag] when the old host connects
+   to k -- can no longer make it keep its server: the rest of S8 is repaired. *)
+Theorem old_host_closing n k tr s x0 :
+  k ∈ client_ids n -> all_internal tr -> run (promoted n k) tr = Some s ->
+  ps s !! host = Some x0 -> hosting x0 = true ->
+  closing x0 = true \/ (closing x0 = false /\ client_of x0 = None /\ flag x0 = false).
+Proof.
+  intros Hk Hall Hrun Hx Hh. destruct (single_promotion_invariant n k tr s Hk Hall Hrun) as (_ & Hspi).
+  destruct Hspi as (_ & _ & _ & _ & _ & _ & _ & _ & _ & _ & H10). exact (H10 x0 Hx Hh).
+Qed.
+Print Assumptions old_host_closing.
+Corollary old_host_closing_after_handover n k tr s x0 h :
+  k ∈ client_ids n -> all_internal tr -> run (promoted n k) tr = Some s ->
+  ps s !! host = Some x0 -> hosting x0 = true -> client_of x0 = Some h -> h = k /\ closing x0 = true.
+Proof.
+  intros Hk Hall Hrun Hx Hh Hc. destruct (single_promotion_invariant n k tr s Hk Hall Hrun) as (_ & Hspi).
+  split; [destruct Hspi as (_ & _ & _ & _ & H4 & _); eapply H4; eauto|].
+  destruct (old_host_closing n k tr s x0 Hk Hall Hrun Hx Hh) as [?|(_ & ? & _)]; [assumption|congruence].
+Qed.
+
+(* "the old host has handled NewHost(k)" (it is closing, or has already closed its server) is absorbing:
+   [closing] stays set as long as the old host has its server, and the old host never hosts again *)
+Definition handed_off (s : pstate) : Prop := pget closing false s host = true \/ pget hosting true s host = false.
+Lemma handed_off_step k s e s' : spi k s -> step s e = Some s' -> handed_off s -> handed_off s'.
+Proof.
+  intros (Hk & _ & _ & _ & _ & H5 & _) Hs Hho. unfold handed_off in *.
+  assert (Hx : exists x, ps s !! host = Some x).
+  { unfold pget in Hho. destruct (ps s !! host) as [x|]; [eauto|]. destruct Hho; discriminate. }
+  destruct Hx as [x Hx]. destruct (proj2 (step_dom _ _ _ Hs host) (ex_intro _ x Hx)) as [x' Hx'].
+  rewrite !(pget_Some _ _ _ _ _ Hx) in Hho. rewrite !(pget_Some _ _ _ _ _ Hx').
+  destruct Hho as [Hc|Hh].
+  - destruct (closing x') eqn:Hc'; [left; reflexivity|right].
+    destruct (closing_falls_only_with_server s e s' host Hs) as [_ Hnh].
+    { rewrite (pget_Some _ _ _ _ _ Hx). exact Hc. } { rewrite (pget_Some _ _ _ _ _ Hx'). exact Hc'. }
+    rewrite (pget_Some _ _ _ _ _ Hx') in Hnh. exact Hnh.
+  - right. destruct (hosting x') eqn:Hh'; [|reflexivity]. exfalso.
+    destruct (hosting_rises_only_by_promote s e s' host Hs) as (h & -> & Hhead).
+    { rewrite (pget_Some _ _ _ _ _ Hx). exact Hh. } { rewrite (pget_Some _ _ _ _ _ Hx'). exact Hh'. }
+    apply head_elem_of in Hhead. destruct (H5 _ _ _ Hhead) as (_ & [(? & _)|(_ & ? & _)]); [discriminate|].
+    apply Hk. symmetry. assumption.
+Qed.
+Theorem old_host_closing_persists n k tr s tr' s' :
+  k ∈ client_ids n -> all_internal tr -> run (promoted n k) tr = Some s -> handed_off s ->
+  all_internal tr' -> run s tr' = Some s' -> handed_off s'.
+Proof.
+  intros Hk Hall Hrun Hho Hall' Hrun'. destruct (single_promotion_invariant n k tr s Hk Hall Hrun) as (Hinv & Hspi).
+  clear Hrun Hall. revert s Hinv Hspi Hho Hall' Hrun'.
+  induction tr' as [|e tr' IH]; intros s Hinv Hspi Hho Hall' Hrun'; simpl in Hrun'.
+  - inversion Hrun'; subst. exact Hho.
+  - destruct (step s e) as [s1|] eqn:Hs; [|discriminate]. apply Forall_cons in Hall' as [Hi Hall'].
+    eapply (IH s1); eauto using roles_inv_step, spi_step, handed_off_step.
+Qed.
+Print Assumptions old_host_closing_persists.
+
+(* ... and a closing server closes as soon as a ClientDisconnected finds its client table empty
+   (any session, any peer) *)
+Lemma closing_closes s h x c q :
+  ps s !! h = Some x -> srv_gate x = true -> flag x = true \/ closing x = true ->
+  clients x = [] -> srv_events x = (false, c) :: q ->
+  exists s' x', step s (ENotify h) = Some s' /\ ps s' !! h = Some x' /\
+    hosting x' = false /\ srv_removed x' = true /\ flag x' = false /\ closing x' = false /\ srv_events x' = [].
+Proof.
+  intros Hx Hg Hfc Hcl Hev. unfold step. rewrite Hx, Hg, Hev, Hcl. simpl.
+  assert (Hb : flag x || closing x = true) by (destruct Hfc as [-> | ->]; [reflexivity|apply orb_true_r]).
+  rewrite Hb. eexists _, _. split; [reflexivity|]. pssimpl. rewrite lookup_insert. split; [reflexivity|].
+  simpl. split_and?; reflexivity.
+Qed.
 
 (* (3) a promoted peer that hosts keeps hosting, in ANY session and whatever else goes on (other
    promotions included), as long as it does not itself handle another promotion message *)
@@ -1246,9 +1378,9 @@ Proof.
 Qed.
 
 (* the run of Promotion.ex_two_clients to its end (without its first event, the request itself) *)
-Definition two_hosts_run : list pevent := tail ex_two_clients ++ [ETimeout 0 2; ENotify 0].
-Definition two_hosts_state : pstate := default (session 2) (run (promoted 2 1) two_hosts_run).
-Example two_hosts_run_runs : all_internal two_hosts_run /\ run (promoted 2 1) two_hosts_run = Some two_hosts_state.
+Definition two_clients_run : list pevent := tail ex_two_clients ++ [ETimeout 0 2; ENotify 0; ESrvDown 0].
+Definition two_clients_state : pstate := default (session 2) (run (promoted 2 1) two_clients_run).
+Example two_clients_run_runs : all_internal two_clients_run /\ run (promoted 2 1) two_clients_run = Some two_clients_state.
 Proof. split; [unfold all_internal; repeat constructor|vm_compute; reflexivity]. Qed.
 
 (* non-vacuity: the promoted peer of that run; the rest of the run is quiet for peer 1 *)
@@ -1257,47 +1389,66 @@ Example hosting_after_promotion_example :
   step (promoted 2 1) (EDeliverDown 0 1) = Some s1 /\
   head (chan (down (promoted 2 1)) 0 1) = Some Promote /\
   pget hosting true (promoted 2 1) 1 = false /\
-  run s1 (tail two_hosts_run) = Some two_hosts_state /\ quiet_for 1 s1 (tail two_hosts_run).
+  run s1 (tail two_clients_run) = Some two_clients_state /\ quiet_for 1 s1 (tail two_clients_run).
 Proof.
   cbv zeta. split; [vm_compute; reflexivity|]. split; [vm_compute; reflexivity|]. split; [vm_compute; reflexivity|].
   split; [vm_compute; reflexivity|]. apply quiet_forb_true. vm_compute. reflexivity.
 Qed.
 
-(* ---------- the rest of S8: a server whose flag is not set is never closed ---------- *)
+(* non-vacuity of old_host_closing_after_handover and closing_closes: the real-code run right after
+   verify_client_connected on the old host (EVerify 0): server, client transport towards 1, flag
+   consumed, closing set; and two events later the last ClientDisconnected closes the server *)
+Example old_host_closing_example :
+  let s := default (session 2) (run (promoted 2 1) (take 12 two_clients_run)) in
+  run (promoted 2 1) (take 12 two_clients_run) = Some s /\ all_internal (take 12 two_clients_run) /\
+  pget hosting false s host = true /\ pget client_of None s host = Some 1 /\ pget flag true s host = false /\
+  pget closing false s host = true /\ pget clients [] s host = [2] /\
+  (fun s' => (pget hosting true s' host, pget closing true s' host, pget srv_removed false s' host))
+    <$> run s [EConnect 2; ENotify 1; ETimeout 0 2; ENotify 0] = Some (false, false, true).
+Proof.
+  cbv zeta. split; [vm_compute; reflexivity|]. split; [unfold all_internal; simpl; repeat constructor|].
+  split_and?; vm_compute; reflexivity.
+Qed.
 
-(* the only place that closes a server tests the flag; the flag is set only by promotion messages *)
+(* ---------- a server whose flags are not set is never closed ---------- *)
+
+(* the only place that closes a server tests flag || closing; both are set only by promotion messages *)
 Lemma hosting_without_flag_step s e s' p :
-  step s e = Some s' -> pget hosting false s p = true -> pget flag true s p = false ->
+  step s e = Some s' -> pget hosting false s p = true -> pget flag true s p = false -> pget closing true s p = false ->
   (forall c q, e = EDeliverUp c p -> head (chan (up s) c p) <> Some (NewHost q)) ->
   (forall h, e = EDeliverDown h p -> head (chan (down s) h p) = Some ReqInit) ->
-  pget hosting false s' p = true /\ pget flag true s' p = false.
+  pget hosting false s' p = true /\ pget flag true s' p = false /\ pget closing true s' p = false.
 Proof.
-  intros Hs Hh Hf Hno1 Hno2. unfold pget in Hh, Hf. destruct (ps s !! p) as [x|] eqn:Hx; [|discriminate].
+  intros Hs Hh Hf Hc Hno1 Hno2. unfold pget in Hh, Hf, Hc. destruct (ps s !! p) as [x|] eqn:Hx; [|discriminate].
   destruct (proj2 (step_dom _ _ _ Hs p) (ex_intro _ x Hx)) as [x' Hx'].
-  rewrite !(pget_Some _ _ _ _ _ Hx'). split.
+  rewrite !(pget_Some _ _ _ _ _ Hx'). split_and?.
   - destruct (hosting x') eqn:Hh'; [reflexivity|]. exfalso.
     destruct (hosting_falls_only_when s e s' p Hs) as (_ & y & c & q & Hy & _ & Hfy & _).
     { rewrite (pget_Some _ _ _ _ _ Hx). exact Hh. } { rewrite (pget_Some _ _ _ _ _ Hx'). exact Hh'. }
-    rewrite Hx in Hy. injection Hy as <-. congruence.
+    rewrite Hx in Hy. injection Hy as <-. destruct Hfy; congruence.
   - destruct (flag x') eqn:Hf'; [|reflexivity]. exfalso.
     destruct (flag_rises_only_by_message s e s' p Hs) as [(h & -> & Hhead)|(c & q & -> & Hhead)].
     { rewrite (pget_Some _ _ _ _ _ Hx). exact Hf. } { rewrite (pget_Some _ _ _ _ _ Hx'). exact Hf'. }
-    + rewrite (Hno2 h eq_refl) in Hhead. destruct Hhead as [?|[q ?]]; discriminate.
+    + rewrite (Hno2 h eq_refl) in Hhead. discriminate.
     + exact (Hno1 c q eq_refl Hhead).
+  - destruct (closing x') eqn:Hc'; [|reflexivity]. exfalso.
+    destruct (closing_rises_only_by_newhost s e s' p Hs) as (c & q & -> & Hhead).
+    { rewrite (pget_Some _ _ _ _ _ Hx). exact Hc. } { rewrite (pget_Some _ _ _ _ _ Hx'). exact Hc'. }
+    exact (Hno1 c q eq_refl Hhead).
 Qed.
 
-(* in ANY session, whatever goes on (promotions included): a peer that hosts with its flag not set
+(* in ANY session, whatever goes on (promotions included): a peer that hosts with neither flag set
    keeps hosting as long as it does not itself handle a promotion message *)
 Theorem hosting_without_flag s p tr s' :
-  pget hosting false s p = true -> pget flag true s p = false ->
+  pget hosting false s p = true -> pget flag true s p = false -> pget closing true s p = false ->
   run s tr = Some s' -> quiet_for p s tr ->
-  pget hosting false s' p = true /\ pget flag true s' p = false.
+  pget hosting false s' p = true /\ pget flag true s' p = false /\ pget closing true s' p = false.
 Proof.
-  revert s. induction tr as [|e tr IH]; intros s Hh Hf Hrun Hq; simpl in Hrun, Hq.
+  revert s. induction tr as [|e tr IH]; intros s Hh Hf Hc Hrun Hq; simpl in Hrun, Hq.
   - inversion Hrun; subst. auto.
   - destruct Hq as [Hnot Hq]. destruct (step s e) as [s1|] eqn:Hs; [|discriminate].
-    destruct (hosting_without_flag_step s e s1 p Hs Hh Hf) as [Hh1 Hf1].
-    + intros c q -> Hc. apply Hnot. left. eauto.
+    destruct (hosting_without_flag_step s e s1 p Hs Hh Hf Hc) as (Hh1 & Hf1 & Hc1).
+    + intros c q -> Hhd. apply Hnot. left. eauto.
     + intros h' ->. destruct (decide (head (chan (down s) h' p) = Some ReqInit)) as [Hy|Hn]; [exact Hy|].
       exfalso. apply Hnot. right. eauto.
     + eapply IH; eauto.
@@ -1308,7 +1459,7 @@ Print Assumptions hosting_without_flag.
 Lemma pending_absorbing k s e s' :
   spi k s -> internal e = true -> step s e = Some s' -> ~ handover_pending k s -> ~ handover_pending k s'.
 Proof.
-  intros (Hk & H1 & H2 & H3 & H4 & H5 & H6 & H7 & H8) Hi Hs Hn [Hp|[Hp|Hp]]; apply Hn.
+  intros (Hk & H1 & H2 & H3 & H4 & H5 & H6 & H7 & H8 & H9 & H10) Hi Hs Hn [Hp|[Hp|Hp]]; apply Hn.
   - (* a Promote in flight was in flight before *)
     destruct (down_shape s e s' host k Hi Hs) as (base & l & Heq & Hbase & Hl).
     rewrite Heq in Hp. apply elem_of_app in Hp as [Hp|Hp].
@@ -1330,60 +1481,11 @@ Proof.
       * apply elem_of_list_singleton in Hp. discriminate.
 Qed.
 
-Lemma old_host_step k s e s' :
-  spi k s -> internal e = true -> step s e = Some s' -> ~ handover_pending k s ->
-  pget hosting false s host = true -> pget flag true s host = false ->
-  pget hosting false s' host = true /\ pget flag true s' host = false.
-Proof.
-  intros Hspi Hi Hs Hn Hh Hf. pose proof Hspi as (Hk & H1 & H2 & H3 & H4 & H5 & H6 & H7 & H8).
-  apply (hosting_without_flag_step s e s' host Hs Hh Hf).
-  - intros c q -> Hhead. apply Hn. apply head_elem_of in Hhead.
-    destruct (H6 _ _ _ Hhead) as [?|(Hq & -> & _)]; [discriminate|]. injection Hq as ->. right; right. exact Hhead.
-  - intros h ->. exfalso. destruct (deliver_down_head _ _ _ _ Hs) as [m Hhead]. apply head_elem_of in Hhead.
-    destruct (H5 _ _ _ Hhead) as (_ & [(_ & _ & ? & _)|(_ & ? & _)]); [contradiction|]. apply Hk. symmetry. assumption.
-Qed.
-
-(* THE REST OF S8, for sessions of any size.  Take any point of a promotion at which the old host has
-   handled NewHost(k) (nothing of the hand-over is pending towards it), still has its server and has
-   lost its flag -- verify_client_connected consumed it when the old host connected to k while one of
-   its old clients had not yet timed out.  From then on the old host hosts FOR EVER: two servers. *)
-Theorem old_host_keeps_hosting n k tr s tr' s' :
-  k ∈ client_ids n -> all_internal tr -> run (promoted n k) tr = Some s ->
-  ~ handover_pending k s -> pget hosting false s host = true -> pget flag true s host = false ->
-  all_internal tr' -> run s tr' = Some s' ->
-  pget hosting false s' host = true /\ pget flag true s' host = false /\ host ∈ hosts s'.
-Proof.
-  intros Hk Hall Hrun Hn Hh Hf Hall' Hrun'.
-  destruct (single_promotion_invariant n k tr s Hk Hall Hrun) as (Hinv & Hspi).
-  assert (Hgen : pget hosting false s' host = true /\ pget flag true s' host = false).
-  { clear Hrun Hall. revert s Hinv Hspi Hn Hh Hf Hall' Hrun'.
-    induction tr' as [|e tr' IH]; intros s Hinv Hspi Hn Hh Hf Hall' Hrun'; simpl in Hrun'.
-    - inversion Hrun'; subst. auto.
-    - destruct (step s e) as [s1|] eqn:Hs; [|discriminate]. apply Forall_cons in Hall' as [Hi Hall'].
-      destruct (old_host_step k s e s1 Hspi Hi Hs Hn Hh Hf) as [Hh1 Hf1].
-      eapply (IH s1); eauto using roles_inv_step, spi_step, pending_absorbing. }
-  destruct Hgen as [Hh' Hf']. split; [exact Hh'|]. split; [exact Hf'|].
-  apply elem_of_hosts. unfold pget in Hh'. destruct (ps s' !! host) as [x0|]; [|discriminate]. eauto.
-Qed.
-Print Assumptions old_host_keeps_hosting.
-
 Global Instance handover_pending_dec k s : Decision (handover_pending k s).
 Proof. unfold handover_pending. apply _. Defined.
 
-(* non-vacuity: the real-code run, right after verify_client_connected on the old host (EVerify 0) *)
-Example old_host_keeps_hosting_example :
-  let s := default (session 2) (run (promoted 2 1) (take 12 two_hosts_run)) in
-  run (promoted 2 1) (take 12 two_hosts_run) = Some s /\ all_internal (take 12 two_hosts_run) /\
-  ~ handover_pending 1 s /\ pget hosting false s host = true /\ pget flag true s host = false /\
-  pget clients [] s host = [2].
-Proof.
-  cbv zeta. split; [vm_compute; reflexivity|]. split; [unfold all_internal; simpl; repeat constructor|].
-  split; [apply (bool_decide_unpack _); vm_compute; exact I|]. split; [vm_compute; reflexivity|].
-  split; vm_compute; reflexivity.
-Qed.
-
 (* ================================================================================================
-   Part 5: what is left of S8 -- promotion with TWO and THREE clients, every interleaving
+   Part 5: C07 with TWO and THREE clients -- every interleaving, with a termination measure
    ================================================================================================ *)
 
 Example session_2_roles :
@@ -1392,178 +1494,181 @@ Example session_2_roles :
                        (2, (false, SDisconnected, [], Some 0, CConnected, true, false, false))].
 Proof. vm_compute. reflexivity. Qed.
 
-(* [repaired_outcome] (Promotion.v), said with quantifiers *)
-Lemma repaired_outcome_spec s k : repaired_outcome s k ->
+(* [promotion_outcome] (Promotion.v), said with quantifiers *)
+Lemma promotion_outcome_spec s k : promotion_outcome s k ->
   no_traffic s /\
   (exists xk, ps s !! k = Some xk /\ pure_host xk (clients xk) /\
               forall p, p <> k -> is_Some (ps s !! p) -> p ∈ clients xk) /\
-  (forall p x, ps s !! p = Some x -> p <> k ->
-     joined x k /\ (p = host -> old_host_end x) /\ (p <> host -> other_client_end x)) /\
-  (forall p, p ∈ hosts s -> p = k \/ p = host).
+  (forall p x, ps s !! p = Some x -> p <> k -> pure_client x k) /\
+  (forall p, p ∈ hosts s -> p = k).
 Proof.
   intros (Hu & Hd & Hk & Hall). split; [split; assumption|]. split; [|split].
   - destruct (ps s !! k) as [xk|] eqn:Hxk; [|contradiction]. destruct Hk as [Hph Hcl].
     exists xk. split; [reflexivity|]. split; [exact Hph|]. intros p Hp [x Hx]. exact (Hcl p x Hx Hp).
   - intros p x Hx Hp. exact (Hall p x Hx Hp).
   - intros p Hp. apply elem_of_hosts in Hp as (x & Hx & Hh).
-    destruct (decide (p = k)) as [->|Hpk]; [left; reflexivity|right].
-    destruct (Hall p x Hx Hpk) as (_ & _ & Hoc). destruct (decide (p = host)) as [->|Hph]; [reflexivity|].
-    destruct (Hoc Hph) as (Hh' & _). congruence.
+    destruct (decide (p = k)) as [->|Hpk]; [reflexivity|].
+    destruct (Hall p x Hx Hpk) as (Hh' & _). congruence.
 Qed.
 
-(* the other clients keep their flag: the full goal is missed *)
-Lemma repaired_outcome_not_ok s k c : repaired_outcome s k -> is_Some (ps s !! c) -> c <> k -> c <> host -> ~ session_ok s k.
-Proof.
-  intros (_ & _ & _ & Hall) [x Hx] Hck Hc0 [_ Hok].
-  destruct (Hall c x Hx Hck) as (_ & _ & Hoc). destruct (Hoc Hc0) as (_ & _ & Hf).
-  destruct (Hok c x Hx Hck) as (_ & _ & _ & Hf' & _). congruence.
-Qed.
-
-(* the stable end states, as the checker sees them: the outcome, the number of clients of the new host
-   (with the membership part of the outcome: exactly all other peers), one or two servers *)
-Definition endb (nclients : nat) (s : pstate) : bool :=
-  bool_decide (repaired_outcome s 1) && bool_decide (length (pget clients [] s 1) = nclients)
-  && bool_decide (hosts s = [1] \/ hosts s = [0; 1]).
-Lemma endb_true n s : endb n s = true ->
-  repaired_outcome s 1 /\ length (pget clients [] s 1) = n /\ (hosts s = [1] \/ hosts s = [0; 1]).
+(* the stable end states, as the checker sees them: the goal of C07, the detailed outcome, and the number
+   of clients of the new host (with the membership part of the outcome: exactly all other peers) *)
+Definition endb (k : peer) (nclients : nat) (s : pstate) : bool :=
+  bool_decide (session_ok s k) && bool_decide (promotion_outcome s k)
+  && bool_decide (length (pget clients [] s k) = nclients).
+Lemma endb_true k n s : endb k n s = true ->
+  session_ok s k /\ promotion_outcome s k /\ length (pget clients [] s k) = n.
 Proof. unfold endb. rewrite !andb_true_iff, !bool_decide_eq_true. tauto. Qed.
 
-(* ---------- two clients: all 1077 states reachable after the request ---------- *)
+(* what the exhaustive check of a reachable set gives (the shape of C07_single_client_promotion) *)
+Lemma promotion_checked n k nclients R :
+  checked (endb k nclients) R -> promoted n k ∈ R ->
+  forall tr s, all_internal tr -> run (promoted n k) tr = Some s ->
+    (length tr + measure s <= measure (promoted n k))%nat
+    /\ (stable s -> session_ok s k /\ promotion_outcome s k /\ length (pget clients [] s k) = nclients)
+    /\ (~ stable s -> exists e s', internal e = true /\ step s e = Some s' /\ (measure s' < measure s)%nat)
+    /\ (exists tr' s', all_internal tr' /\ run s tr' = Some s' /\ stable s' /\ session_ok s' k /\ promotion_outcome s' k).
+Proof.
+  intros Hc Hs0 tr s Hall Hrun.
+  destruct (check_run _ _ Hc _ _ _ Hs0 Hall Hrun) as [Hin Hle].
+  split; [exact Hle|]. split; [|split].
+  - intros Hst. exact (endb_true _ _ _ (check_stable _ _ _ Hc Hin Hst)).
+  - intros Hn. destruct (not_stable _ Hn) as (e & s' & Hi & Hs). exists e, s'.
+    split; [exact Hi|]. split; [exact Hs|]. exact (proj2 (check_step _ _ _ _ _ Hc Hin Hi Hs)).
+  - destruct (check_completes _ _ Hc _ Hin) as (tr' & s' & H1 & H2 & H3 & _ & H4).
+    destruct (endb_true _ _ _ H4) as (Hok & Hout & _). exists tr', s'. auto.
+Qed.
+
+(* ---------- two clients: all 1025 states reachable after the request ---------- *)
 Definition R2 : list pstate := default [] (explore_h (100 * 100) [promoted 2 1] ∅ []).
-Lemma R2_checked : checked (endb 2) R2.
+Lemma R2_checked : checked (endb 1 2) R2.
 Proof. apply checkb_h_checked. vm_cast_no_check (eq_refl true). Qed.
 Lemma R2_start : promoted 2 1 ∈ R2.
 Proof. apply inb_true. vm_compute. reflexivity. Qed.
-Example R2_size : length R2 = 1077%nat /\ measure (promoted 2 1) = 50%nat.
+Example R2_size : length R2 = 1025%nat /\ measure (promoted 2 1) = 50%nat.
 Proof. split; vm_compute; reflexivity. Qed.
 
-(* With two clients EVERY run terminates, and every run that cannot be continued ends like this:
-   the new host 1 hosts exactly 0 and 2, both are connected clients of 1 with a live RenetClient
-   (the repair works) -- but client 2 keeps its flag, and the old host 0 either has closed its server
-   or keeps it for ever.  Both happen (two_hosts_state, one_host_state below). *)
-Theorem C07_two_clients_every_run_repaired :
+(* With two clients EVERY run terminates, and every run that cannot be continued has reached the goal:
+   exactly one host, the promoted peer 1, hosting exactly 0 and 2; both are nothing but connected
+   clients of 1 with a live RenetClient and no flag; the old host has closed its server *)
+Theorem C07_two_clients_promotion :
   forall tr s, all_internal tr -> run (promoted 2 1) tr = Some s ->
     (length tr + measure s <= measure (promoted 2 1%N))%nat
-    /\ (stable s -> repaired_outcome s 1 /\ length (pget clients [] s 1) = 2%nat /\
-                    (hosts s = [1] \/ hosts s = [0; 1]) /\ ~ session_ok s 1)
-    /\ (exists tr' s', all_internal tr' /\ run s tr' = Some s' /\ stable s' /\ repaired_outcome s' 1).
-Proof.
-  intros tr s Hall Hrun.
-  destruct (check_run _ _ R2_checked _ _ _ R2_start Hall Hrun) as [Hin Hle].
-  split; [exact Hle|]. split.
-  - intros Hst. destruct (endb_true _ _ (check_stable _ _ _ R2_checked Hin Hst)) as (Ho & Hl & Hh).
-    split; [exact Ho|]. split; [exact Hl|]. split; [exact Hh|].
-    apply (repaired_outcome_not_ok s 1 2 Ho); [|discriminate|discriminate].
-    apply (run_dom _ _ _ Hrun). vm_compute. eauto.
-  - destruct (check_completes _ _ R2_checked _ Hin) as (tr' & s' & H1 & H2 & H3 & _ & H4).
-    exists tr', s'. split; [exact H1|]. split; [exact H2|]. split; [exact H3|]. exact (proj1 (endb_true _ _ H4)).
-Qed.
-Print Assumptions C07_two_clients_every_run_repaired.
+    /\ (stable s -> session_ok s 1 /\ promotion_outcome s 1 /\ length (pget clients [] s 1) = 2%nat)
+    /\ (~ stable s -> exists e s', internal e = true /\ step s e = Some s' /\ (measure s' < measure s)%nat)
+    /\ (exists tr' s', all_internal tr' /\ run s tr' = Some s' /\ stable s' /\ session_ok s' 1 /\ promotion_outcome s' 1).
+Proof. exact (promotion_checked 2 1 2 R2 R2_checked R2_start). Qed.
+Print Assumptions C07_two_clients_promotion.
 
-(* the ending of the real-code run (Promotion.ex_two_clients, then the 15 s time-out): two servers *)
-Example two_hosts_state_roles :
-  roles two_hosts_state = [(0, (true, SConnected, [], Some 1, CConnected, true, false, false));
-                           (1, (true, SConnected, [0; 2], None, CDisconnected, false, true, false));
-                           (2, (false, SDisconnected, [], Some 1, CConnected, true, false, true))]
-  /\ enabled two_hosts_state = [] /\ no_traffic two_hosts_state.
-Proof.
-  split; [vm_compute; reflexivity|]. split; [vm_compute; reflexivity|].
-  split; apply (bool_decide_unpack _); vm_compute; exact I.
-Qed.
+Theorem C07_two_clients : C07_statement 2 1.
+Proof. intros tr s Hall Hrun Hst. destruct (C07_two_clients_promotion tr s Hall Hrun) as (_ & H & _). exact (proj1 (H Hst)). Qed.
+Print Assumptions C07_two_clients.
 
-(* C07 is still refuted with two clients: a run after which nothing will ever happen, two peers host,
-   and client 2 still has host_promotion_in_progress set *)
-Theorem C07_refuted_two_clients :
-  exists tr s,
-    all_internal tr /\ run (promoted 2 1) tr = Some s /\
-    stable s /\                                  (* nothing will happen any more *)
-    hosts s = [0; 1] /\                          (* two peers host *)
-    repaired_outcome s 1 /\                      (* although everybody is a connected client of 1 *)
-    pget clients [] s 1 = [0; 2] /\ pget clients [] s 0 = [] /\
-    pget flag false s 2 = true /\
-    ~ session_ok s 1 /\ ~ session_ok_roles s 1.
-Proof.
-  exists two_hosts_run, two_hosts_state. destruct two_hosts_run_runs as [Ha Hr].
-  split; [exact Ha|]. split; [exact Hr|]. split; [apply stableb_true; vm_compute; reflexivity|].
-  split; [vm_compute; reflexivity|]. split; [apply (bool_decide_unpack _); vm_compute; exact I|].
-  split; [vm_compute; reflexivity|]. split; [vm_compute; reflexivity|]. split; [vm_compute; reflexivity|].
-  split; intros [Hh _]; vm_compute in Hh; discriminate.
-Qed.
-Print Assumptions C07_refuted_two_clients.
+(* no run after the request has more than 50 events *)
+Corollary C07_two_clients_bound tr s : all_internal tr -> run (promoted 2 1) tr = Some s -> (length tr <= 50)%nat.
+Proof. intros Ha Hr. destruct (C07_two_clients_promotion _ _ Ha Hr) as [H _]. rewrite (proj2 R2_size) in H. lia. Qed.
 
-Corollary C07_statement_two_clients_false : ~ C07_statement 2 1.
-Proof.
-  intros H. destruct C07_refuted_two_clients as (tr & s & Ha & Hr & Hst & _ & _ & _ & _ & _ & Hn & _).
-  exact (Hn (H tr s Ha Hr Hst)).
-Qed.
-Corollary C07_roles_refuted_two_clients : ~ C07_roles_statement 2 1.
-Proof.
-  intros H. destruct C07_refuted_two_clients as (tr & s & Ha & Hr & Hst & _ & _ & _ & _ & _ & _ & Hn).
-  exact (Hn (H tr s Ha Hr Hst)).
-Qed.
-
-(* stronger: with two clients NO run reaches the full goal (the flag of client 2) *)
-Corollary C07_two_clients_never_ok tr s :
-  all_internal tr -> run (promoted 2 1) tr = Some s -> stable s -> ~ session_ok s 1.
-Proof. intros Ha Hr Hst. destruct (C07_two_clients_every_run_repaired tr s Ha Hr) as (_ & H & _). apply H. exact Hst. Qed.
-
-(* the other ending: the old host notices the departure of client 2 before verify_client_connected has
-   consumed its flag, and closes its server: the roles are right *)
-Definition one_host_state : pstate := default (session 2) (run (promoted 2 1) (tail ex_two_clients_closed)).
-Example one_host_reachable :
-  all_internal (tail ex_two_clients_closed) /\ run (promoted 2 1) (tail ex_two_clients_closed) = Some one_host_state /\
-  stable one_host_state /\ hosts one_host_state = [1] /\ session_ok_roles one_host_state 1 /\ repaired_outcome one_host_state 1.
-Proof.
-  split; [unfold all_internal; repeat constructor|]. split; [vm_compute; reflexivity|].
-  split; [apply stableb_true; vm_compute; reflexivity|]. split; [vm_compute; reflexivity|].
-  split; apply (bool_decide_unpack _); vm_compute; exact I.
-Qed.
-
-(* ---------- three clients: 4 peers, 26425 reachable states ---------- *)
-Definition R3 : list pstate := default [] (explore_h (1000 * 1000) [promoted 3 1] ∅ []).
-Lemma R3_checked_b : (N.of_nat (length R3) =? 26425) && inb (promoted 3 1) R3 && checkb_h (endb 3) R3 = true.
+(* the same for the promotion of the OTHER client (peer 2) *)
+Definition R2' : list pstate := default [] (explore_h (100 * 100) [promoted 2 2] ∅ []).
+Lemma R2'_checked : inb (promoted 2 2) R2' && checkb_h (endb 2 2) R2' = true.
 Proof. vm_cast_no_check (eq_refl true). Qed.
-Lemma R3_checked : N.of_nat (length R3) = 26425 /\ promoted 3 1 ∈ R3 /\ checked (endb 3) R3.
+Theorem C07_two_clients_other : C07_statement 2 2.
+Proof.
+  pose proof R2'_checked as H. apply andb_true_iff in H as [H0 Hc]. apply inb_true in H0. apply checkb_h_checked in Hc.
+  intros tr s Hall Hrun Hst. destruct (promotion_checked 2 2 2 R2' Hc H0 tr s Hall Hrun) as (_ & H & _). exact (proj1 (H Hst)).
+Qed.
+Print Assumptions C07_two_clients_other.
+
+(* the ending of the real-code run (Promotion.ex_two_clients, then the 15 s time-out) *)
+Example two_clients_state_roles :
+  roles two_clients_state = [(0, (false, SDisconnected, [], Some 1, CConnected, true, false, false));
+                             (1, (true, SConnected, [0; 2], None, CDisconnected, false, true, false));
+                             (2, (false, SDisconnected, [], Some 1, CConnected, true, false, false))]
+  /\ stable two_clients_state /\ session_ok two_clients_state 1 /\ promotion_outcome two_clients_state 1.
+Proof.
+  split; [vm_compute; reflexivity|]. split; [apply stableb_true; vm_compute; reflexivity|].
+  split; apply (bool_decide_unpack _); vm_compute; exact I.
+Qed.
+
+(* ---------- three clients: 4 peers, 25905 reachable states ---------- *)
+Definition R3 : list pstate := default [] (explore_h (1000 * 1000) [promoted 3 1] ∅ []).
+Lemma R3_checked_b : (N.of_nat (length R3) =? 25905) && inb (promoted 3 1) R3 && checkb_h (endb 1 3) R3 = true.
+Proof. vm_cast_no_check (eq_refl true). Qed.
+Lemma R3_checked : N.of_nat (length R3) = 25905 /\ promoted 3 1 ∈ R3 /\ checked (endb 1 3) R3.
 Proof.
   pose proof R3_checked_b as H. apply andb_true_iff in H as [H H3]. apply andb_true_iff in H as [H1 H2].
   split; [apply N.eqb_eq; exact H1|]. split; [apply inb_true; exact H2|apply checkb_h_checked; exact H3].
 Qed.
 
-Theorem C07_three_clients_every_run_repaired :
+Theorem C07_three_clients_promotion :
   forall tr s, all_internal tr -> run (promoted 3 1) tr = Some s ->
     (length tr + measure s <= measure (promoted 3 1%N))%nat
-    /\ (stable s -> repaired_outcome s 1 /\ length (pget clients [] s 1) = 3%nat /\
-                    (hosts s = [1] \/ hosts s = [0; 1]) /\ ~ session_ok s 1)
-    /\ (exists tr' s', all_internal tr' /\ run s tr' = Some s' /\ stable s' /\ repaired_outcome s' 1).
-Proof.
-  intros tr s Hall Hrun. destruct R3_checked as (_ & Hs0 & Hc).
-  destruct (check_run _ _ Hc _ _ _ Hs0 Hall Hrun) as [Hin Hle].
-  split; [exact Hle|]. split.
-  - intros Hst. destruct (endb_true _ _ (check_stable _ _ _ Hc Hin Hst)) as (Ho & Hl & Hh).
-    split; [exact Ho|]. split; [exact Hl|]. split; [exact Hh|].
-    apply (repaired_outcome_not_ok s 1 2 Ho); [|discriminate|discriminate].
-    apply (run_dom _ _ _ Hrun). vm_compute. eauto.
-  - destruct (check_completes _ _ Hc _ Hin) as (tr' & s' & H1 & H2 & H3 & _ & H4).
-    exists tr', s'. split; [exact H1|]. split; [exact H2|]. split; [exact H3|]. exact (proj1 (endb_true _ _ H4)).
-Qed.
-Print Assumptions C07_three_clients_every_run_repaired.
+    /\ (stable s -> session_ok s 1 /\ promotion_outcome s 1 /\ length (pget clients [] s 1) = 3%nat)
+    /\ (~ stable s -> exists e s', internal e = true /\ step s e = Some s' /\ (measure s' < measure s)%nat)
+    /\ (exists tr' s', all_internal tr' /\ run s tr' = Some s' /\ stable s' /\ session_ok s' 1 /\ promotion_outcome s' 1).
+Proof. destruct R3_checked as (_ & Hs0 & Hc). exact (promotion_checked 3 1 3 R3 Hc Hs0). Qed.
+Print Assumptions C07_three_clients_promotion.
+
+Theorem C07_three_clients : C07_statement 3 1.
+Proof. intros tr s Hall Hrun Hst. destruct (C07_three_clients_promotion tr s Hall Hrun) as (_ & H & _). exact (proj1 (H Hst)). Qed.
+Print Assumptions C07_three_clients.
 
 Example measure_promoted_3_1 : measure (promoted 3 1) = 64%nat.
 Proof. vm_compute. reflexivity. Qed.
+Corollary C07_three_clients_bound tr s : all_internal tr -> run (promoted 3 1) tr = Some s -> (length tr <= 64)%nat.
+Proof. intros Ha Hr. destruct (C07_three_clients_promotion _ _ Ha Hr) as [H _]. rewrite measure_promoted_3_1 in H. lia. Qed.
 
-(* three clients, the real-code order: both other clients join 1, the old host keeps its server *)
+(* three clients, the real-code order: both other clients join 1; the old host joins 1, loses its flag to
+   verify_client_connected, and closes its server when the last of its old clients has timed out *)
 Definition ex_three_clients : list pevent :=
   [EDeliverDown 0 1; ESrvUp 1; EDeliverUp 1 0; ELinkDown 1; ENotify 0; ECliConnecting 0;
    EDeliverDown 0 2; EDeliverDown 0 3; ECliConnecting 2; ECliConnecting 3;
    EConnect 0; ENotify 1; ECliDown 1; EVerify 0; EConnect 2; EConnect 3; ENotify 1; ENotify 1;
-   ETimeout 0 2; ETimeout 0 3; ENotify 0; ENotify 0].
+   ETimeout 0 2; ENotify 0; ETimeout 0 3; ENotify 0; ESrvDown 0].
 Example ex_three_clients_runs :
-  (fun s => (roles s, stableb s, hosts s, endb 3 s)) <$> run (promoted 3 1) ex_three_clients
-  = Some ([(0, (true, SConnected, [], Some 1, CConnected, true, false, false));
+  (fun s => (roles s, stableb s, hosts s, endb 1 3 s)) <$> run (promoted 3 1) ex_three_clients
+  = Some ([(0, (false, SDisconnected, [], Some 1, CConnected, true, false, false));
            (1, (true, SConnected, [0; 2; 3], None, CDisconnected, false, true, false));
-           (3, (false, SDisconnected, [], Some 1, CConnected, true, false, true));
-           (2, (false, SDisconnected, [], Some 1, CConnected, true, false, true))], true, [0; 1], true).
+           (3, (false, SDisconnected, [], Some 1, CConnected, true, false, false));
+           (2, (false, SDisconnected, [], Some 1, CConnected, true, false, false))], true, [1], true).
 Proof. vm_compute. reflexivity. Qed.
+
+
+(* ---------- sessions of any size ---------- *)
+
+(* the full statement for every n *)
+Definition C07_all_n_statement : Prop := forall n k, k ∈ client_ids n -> C07_statement n k.
+
+(* What is proved of it: the instances with up to three clients (every interleaving, with termination),
+   and for EVERY n the safety half -- at every point of every run after the request the invariants of
+   Part 4 hold: at most two servers (the old host's and k's); k, once it hosts, hosts for ever; every
+   other client is untouched or has moved to k with a fresh RenetClient that stays alive, its flags
+   are never set; the old host, while it still has its server after handling NewHost(k), is closing
+   and stays so (old_host_closing, old_host_closing_persists), and closes as soon as a
+   ClientDisconnected finds its client table empty (closing_closes).
+   MISSING for arbitrary n: (a) the decrease of [measure] for arbitrary n (termination), (b) "a stable
+   state is session_ok" -- it needs the progress invariants (the Promote / NewHost(k) / relayed NewHost(k)
+   is never lost before it is handled; a ClientDisconnected is pending whenever the closing old host's
+   table is empty), which are checked here only by exhaustive exploration for n <= 3. *)
+Theorem C07_all_n_partial :
+  C07_statement 1 1 /\ C07_statement 2 1 /\ C07_statement 2 2 /\ C07_statement 3 1 /\
+  forall n k tr s, k ∈ client_ids n -> all_internal tr -> run (promoted n k) tr = Some s ->
+    roles_inv s /\ spi k s /\
+    (forall p, p ∈ hosts s -> p = host \/ p = k) /\
+    (forall c, c ∈ client_ids n -> c <> k ->
+       exists x, ps s !! c = Some x /\ (untouched s c x \/ moved s k c x) /\
+                 flag x = false /\ closing x = false /\ sticky x = false /\ ~ stranded x) /\
+    (forall x0, ps s !! host = Some x0 -> hosting x0 = true ->
+       closing x0 = true \/ (closing x0 = false /\ client_of x0 = None /\ flag x0 = false)).
+Proof.
+  split; [exact C07_single_client|]. split; [exact C07_two_clients|]. split; [exact C07_two_clients_other|].
+  split; [exact C07_three_clients|]. intros n k tr s Hk Hall Hrun.
+  destruct (single_promotion_invariant n k tr s Hk Hall Hrun) as (Hinv & Hspi).
+  split; [exact Hinv|]. split; [exact Hspi|]. split; [exact (at_most_two_hosts n k tr s Hk Hall Hrun)|].
+  split; [intros c Hc Hck; exact (C07_other_clients n k c tr s Hk Hc Hck Hall Hrun)|].
+  intros x0 Hx Hh. exact (old_host_closing n k tr s x0 Hk Hall Hrun Hx Hh).
+Qed.
+Print Assumptions C07_all_n_partial.
 
 (* ================================================================================================
    Part 6: a chain of promotions (two peers): promote 1, promote 0 back, promote 1 again, ...
